@@ -42,7 +42,7 @@ RULE = ('complete tree of node answers: every sequence over the 17-answer alphab
         'compared with the statement: #requests, delay list, identical request arguments in every attempt, returned JSON (streaming layers: JSON lines) / '
         'raised error of the last response')
 BOUND = {'quick': 'all answer sequences up to the attempt cap (depth<=7) as complete trees: GET x entries {request, verb, multi, query, query+params, _verb, monitor, '
-                  'peers log(monitor=True)}; request x {stream=True, stream=False, params, headers, POST+json, timeout=5, POST+timeout+all options}; multi x stream=True; '
+                  'peers log(monitor=True)}; request x {stream=True, POST+timeout=5+all options together}; multi x stream=True; '
                   'body padding {0, 1200} chars on both sides (request, query); one big answer (padding 5000, 70000) at every position of a sequence after 0..5 small '
                   'temporary errors with every continuation over ok/t500/perm500/e404 (request, query; 5000: monitor, request+stream); keyword options: the full product '
                   '(72 combinations for request, 36 multi, 6/12 verbs, 6 monitor, 2 others) x methods x timeout {None,5} x 253 sequences; sessions: 253x253 pairs '
@@ -443,8 +443,8 @@ def shape_sequences(pad, k):
 ALLOPTS = 'stream=1,params=1,json=1,headers=1,other=0'
 TREES = {
     'quick': [('GET', None, e, 0, '') for e in ENTRIES] + [('GET', None, e, 1200, '') for e in ('request', 'query')]
-             + [('GET', None, 'request', 0, o) for o in ('stream=1', 'stream=0', 'params=1', 'headers=1')]
-             + [('POST', None, 'request', 0, 'json=1'), ('GET', 5, 'request', 0, ''), ('POST', 5, 'request', 0, ALLOPTS), ('GET', None, 'multi', 0, 'stream=1')],
+             # (the other single options are complete trees in the thorough tier; here they are in the option product and in ALLOPTS)
+             + [('GET', None, 'request', 0, 'stream=1'), ('POST', 5, 'request', 0, ALLOPTS), ('GET', None, 'multi', 0, 'stream=1')],
     'thorough': ([(m, t, e, 0, '') for e in ('request', 'verb') for m in ENTRIES[e][3] for t in (None, 5)]
                  + [(m, None, e, 0, '') for e in ('multi', '_verb') for m in ENTRIES[e][3]] + [('GET', 5, 'multi', 0, '')]
                  + [('GET', None, e, 0, '') for e in ('query', 'queryp', 'monitor', 'peerlog')]
